@@ -76,7 +76,7 @@ var bindFns = []bindFn{
 	{`joinv(splitax($s," "),"|")`, "splitax/joinv", func(s *mlrval.Mlrval) *mlrval.Mlrval { return bifs.BIF_joinv(bifs.BIF_splitax(s, sval(" ")), sval("|")) }},
 	{`format("{}:{}",$s,$s)`, "format", func(s *mlrval.Mlrval) *mlrval.Mlrval { return bifs.BIF_format([]*mlrval.Mlrval{sval("{}:{}"), s, s}) }},
 	{`$s . "x"`, ".", func(s *mlrval.Mlrval) *mlrval.Mlrval { return bifs.BIF_dot(s, sval("x")) }},
-	{`json_decode(json_encode($s))`, "json_encode/json_decode", func(s *mlrval.Mlrval) *mlrval.Mlrval {
+	{`json_parse(json_stringify($s))`, "json_stringify/json_parse", func(s *mlrval.Mlrval) *mlrval.Mlrval {
 		return bifs.BIF_json_parse(bifs.BIF_json_stringify_unary(s))
 	}},
 }
@@ -131,9 +131,17 @@ var docExamples = []docEx{
 	{`strmatch("abc", "a[a-z]c")`, "true"},
 	{`strmatch("abc", "(a).(c)")`, "true"},
 	{`strmatch(12345, "34")`, "true"},
-	{`json_encode(strmatchx("a", "abc"))`, `{"matched": false}`},
-	{`json_encode(strmatchx("abc", "a"))`, `{"matched": true, "full_capture": "a", "full_start": 1, "full_end": 1}`},
-	{`json_encode(strmatchx("[zy:3458]", "([a-z]+):([0-9]+)"))`, `{"matched": true, "full_capture": "zy:3458", "full_start": 2, "full_end": 8, "captures": ["zy", 3458], "starts": [2, 5], "ends": [3, 8]}`},
+	{`strmatchx("a", "abc")["matched"]`, "false"},
+	{`length(strmatchx("a", "abc"))`, "1"},
+	{`joink(strmatchx("abc", "a"), ",")`, "matched,full_capture,full_start,full_end"},
+	{`joinv(strmatchx("abc", "a"), ",")`, "true,a,1,1"},
+	{`joink(strmatchx("[zy:3458]", "([a-z]+):([0-9]+)"), ",")`, "matched,full_capture,full_start,full_end,captures,starts,ends"},
+	{`strmatchx("[zy:3458]", "([a-z]+):([0-9]+)")["full_capture"]`, "zy:3458"},
+	{`strmatchx("[zy:3458]", "([a-z]+):([0-9]+)")["full_start"]`, "2"},
+	{`strmatchx("[zy:3458]", "([a-z]+):([0-9]+)")["full_end"]`, "8"},
+	{`joinv(strmatchx("[zy:3458]", "([a-z]+):([0-9]+)")["captures"], ",")`, "zy,3458"},
+	{`joinv(strmatchx("[zy:3458]", "([a-z]+):([0-9]+)")["starts"], ",")`, "2,5"},
+	{`joinv(strmatchx("[zy:3458]", "([a-z]+):([0-9]+)")["ends"], ",")`, "3,8"},
 	{`leftpad("abcdefg", 10 , "*")`, "***abcdefg"},
 	{`leftpad("abcdefg", 10 , "XY")`, "XYabcdefg"},
 	{`leftpad("1234567", 10 , "0")`, "0001234567"},
@@ -145,11 +153,14 @@ var docExamples = []docEx{
 	{`format("{}:{}:{}", 1,2,3,4)`, "1:2:3"},
 	{`format("{1}:{2}:{1}", "a","b")`, "a:b:a"},
 	{`format("{2}{}:{1}{}", 3,4)`, "43:34"},
-	{`json_encode(unformat("{}:{}:{}",  "1:2:3"))`, "[1, 2, 3]"},
-	{`json_encode(unformat("{}h{}m{}s", "3h47m22s"))`, "[3, 47, 22]"},
+	{`joinv(unformat("{}:{}:{}",  "1:2:3"), ",")`, "1,2,3"},
+	{`typeof(unformat("{}:{}:{}",  "1:2:3")[1])`, "int"},
+	{`joinv(unformat("{}h{}m{}s", "3h47m22s"), ",")`, "3,47,22"},
 	{`is_error(unformat("{}h{}m{}s", "3:47:22"))`, "true"},
-	{`json_encode(unformatx("{}:{}:{}",  "1:2:3"))`, `["1", "2", "3"]`},
-	{`json_encode(unformatx("{}h{}m{}s", "3h47m22s"))`, `["3", "47", "22"]`},
+	{`joinv(unformatx("{}:{}:{}",  "1:2:3"), ",")`, "1,2,3"},
+	{`typeof(unformatx("{}:{}:{}",  "1:2:3")[1])`, "string"},
+	{`joinv(unformatx("{}h{}m{}s", "3h47m22s"), ",")`, "3,47,22"},
+	{`is_error(unformatx("{}h{}m{}s", "3:47:22"))`, "true"},
 	{`index("abcde", "e")`, "5"},
 	{`index("abcde", "x")`, "-1"},
 	{`index(12345, 34)`, "3"},
@@ -190,8 +201,8 @@ var docExamples = []docEx{
 	{`"<" . "abcde"[1:6] . ">"`, "<abcde>"},
 	{`"<" . "abcde"[10:20] . ">"`, "<>"},
 	{`"a\x62c"`, "abc"},
-	{`"❦\U00010877"`, "❦𐡷"},
-	{`strlen("❦\U00010877")`, "2"},
+	{`"\u2766\U00010877"`, "\u2766\U00010877"},
+	{`strlen("\u2766\U00010877")`, "2"},
 	{`sub("a.b", "\.", "\t") . "|" . strlen(sub("a.b", "\.", "\t"))`, "a\tb|3"},
 	{`gsub("a\tb", "\t", "TAB")`, "aTABb"},
 	{`any([1,2,3], func(e) {return e =~ "2"})`, "true"},
@@ -438,6 +449,18 @@ func dslWorker(w *vf.Worker) {
 	}
 	dslLits := []string{`a\tb`, `\a`, `\b`, `\f`, `\r`, `\v`, `\\`, `\"`, `\\t`, `\101`, `\000x`, `\377`, `\x41`, `\x7f`, `\xff`, `é`, `日`, `\U0001F600`, `a\x62c`,
 		`\t\t`, `x\\`, `\\\\`, `\"\"`, `\101\102`, `\x41\x42`, `tab:\t:`, `AB`, `q\"q`, `\x4g`, `\q`, `\.`, `\u00`, `\8`}
+	for c := byte(0x21); c <= 0x7e; c++ {
+		l := `\` + string(c)
+		dup := false
+		for _, x := range dslLits {
+			if x == l {
+				dup = true
+			}
+		}
+		if !dup && c != '"' {
+			dslLits = append(dslLits, l)
+		}
+	}
 	type ljob struct {
 		lit string
 		idx uint64
@@ -452,10 +475,101 @@ func dslWorker(w *vf.Worker) {
 		reqs = append(reqs, map[string]any{"k": "unb", "lit": l})
 	}
 
+	// ---- F. backslash + every printable ASCII character in regex position ("all strings in regex position are implicit r-strings";
+	// RE2 syntax as pasted into reference-main-regular-expressions.md: \* is a literal * for any punctuation character)
+	var asciiSubject strings.Builder
+	for c := byte(0x20); c <= 0x7e; c++ {
+		asciiSubject.WriteByte(c)
+	}
+	asciiSubject.WriteString("\t")
+	subjectAll := asciiSubject.String()
+	type rjob struct {
+		c   byte
+		idx uint64
+		at  int // -1: not asserted
+	}
+	var rjobs []rjob
+	for c := byte(0x21); c <= 0x7e; c++ {
+		if !next() {
+			continue
+		}
+		isAlnum := (c >= '0' && c <= '9') || (c >= 'a' && c <= 'z') || (c >= 'A' && c <= 'Z')
+		py := `\` + string(c)
+		switch {
+		case !isAlnum:
+		case strings.IndexByte("ABDSWbdfnrstvw", c) >= 0:
+		case c == 'z':
+			py = `\Z`
+		default:
+			rjobs = append(rjobs, rjob{c, idx, -1})
+			continue
+		}
+		rjobs = append(rjobs, rjob{c, idx, len(reqs)})
+		reqs = append(reqs, map[string]any{"k": "regex", "p": py, "ci": false, "subj": []string{subjectAll}, "repl": []string{"#"}, "orelse": orElse})
+	}
+	// ---- G. raw characters inside a string literal
+	rawChars := []string{"\t", "\x01", "\x7f", "\u00e9", "\u65e5", "e\u0301", "\uffff", "\U00010000", "\U0001F600", "'", "#", "$"}
+	type gjob struct {
+		r   string
+		idx uint64
+	}
+	var gjobs []gjob
+	for _, r := range rawChars {
+		if next() {
+			gjobs = append(gjobs, gjob{r, idx})
+		}
+	}
+
 	ans, err := pyBatch(reqs)
 	if err != nil {
 		w.Broken("%v", err)
 		return
+	}
+
+	// F
+	for _, j := range rjobs {
+		w.Begin(j.idx)
+		lit := `\` + string(j.c)
+		in := subjectAll + "\n"
+		r := vf.RunMlr([]string{"--inidx", "--ifs", `\x1f`, "put", "-q", `print gsub($1, "` + lit + `", "#")`}, vf.MlrOpts{Stdin: &in})
+		w.Eval(1)
+		w.Count("calls:dsl-regex-escape", 1)
+		if j.at < 0 {
+			w.Count("unconstrained:dsl-regex-escape", 1)
+			if r.Panic != "" {
+				w.Violation(fmt.Sprintf("crash[dsl-regex-escape]:02:%s", lit), "regex literal \""+lit+"\": "+r.String(), nil)
+			}
+			continue
+		}
+		var rows []rxRow
+		if !mustUnmarshal(w, ans[j.at], &rows) {
+			return
+		}
+		w.Nontrivial(1)
+		w.Count("asserted:dsl-regex-escape", 1)
+		want := unhex(strings.TrimPrefix(strings.Split(rows[0].Gsub[0], "|")[0], "s:"))
+		got := strings.TrimSuffix(r.Stdout, "\n")
+		if !r.OK() || got != want {
+			cause := "wrong-result"
+			if strings.Contains(r.Stderr+r.Err, "lexer") || strings.Contains(r.Stderr+r.Err, "parse") {
+				cause = "not-parsed"
+			}
+			w.Violation(fmt.Sprintf("regex-literal[%s]:02:%s", cause, lit), fmt.Sprintf("gsub($1, \"%s\", \"#\") on all printable ASCII gives %s (%s); Go/RE2 regex syntax gives %s", lit, q(got), strings.TrimSpace(r.Stderr+r.Err), q(want)), map[string]any{"regex_literal": lit, "subject": subjectAll})
+		}
+	}
+	// G
+	for _, j := range gjobs {
+		w.Begin(j.idx)
+		lit := "a" + j.r + "b"
+		r := vf.RunMlr([]string{"-n", "put", `end{print hex_encode("` + lit + `")}`}, vf.MlrOpts{})
+		w.Eval(1)
+		w.Nontrivial(1)
+		w.Count("calls:dsl-raw-char-literal", 1)
+		w.Count("asserted:dsl-raw-char-literal", 1)
+		got := strings.TrimSuffix(r.Stdout, "\n")
+		if !r.OK() || got != hx(lit) {
+			w.Violation(fmt.Sprintf("string-literal[raw-char]:%02d:%s", len(j.r), q(j.r)), fmt.Sprintf("string literal containing the raw character %s evaluates to bytes %q (%s), expected %s", q(j.r), got, strings.TrimSpace(r.Stderr+r.Err), hx(lit)), map[string]any{"literal": lit})
+		}
 	}
 
 	// C
@@ -498,7 +612,7 @@ if ($s =~ "%[1]s") {print "yes:\0"} else {print "no:\0"}
 			continue
 		}
 		str := func(want string) string { // "s:hex" -> "[text]"
-			return "[" + unhex(strings.TrimPrefix(strings.Split(want, "|")[0], "s:")) + "]"
+			return "[" + unhex(strings.TrimPrefix(want, "s:")) + "]"
 		}
 		boolOf := func(want string) string { return strings.TrimPrefix(want, "b:") }
 		capsOf := func(row rxRow) string {
@@ -527,25 +641,42 @@ if ($s =~ "%[1]s") {print "yes:\0"} else {print "no:\0"}
 			if boolOf(cs.Strmatch) == "true" {
 				yes = "yes:" + cs.Captures[0]
 			}
-			wantLines := []struct{ name, want string }{
-				{"sub", str(cs.Sub[0])}, {"gsub", str(cs.Gsub[1])}, {`sub "..."i`, str(ci.Sub[0])}, {`gsub "..."i`, str(ci.Gsub[1])},
-				{"regextract_or_else", oe(cs)}, {`regextract_or_else "..."i`, oe(ci)},
-				{"strmatch", boolOf(cs.Strmatch)}, {`strmatch "..."i`, boolOf(ci.Strmatch)}, {"strmatchx", boolOf(cs.Strmatch)},
-				{"=~", boolOf(cs.Strmatch)}, {"captures after =~", capsOf(cs)},
-				{`=~ "..."i`, boolOf(ci.Strmatch)}, {`captures after =~ "..."i`, capsOf(ci)},
-				{"!=~", notOf(boolOf(cs.Strmatch))}, {"any+=~", boolOf(cs.Strmatch)}, {"if =~", yes},
+			alts := func(want string) []string { // "s:hex|s:hex" -> bracketed texts
+				var out []string
+				for _, a := range strings.Split(want, "|") {
+					out = append(out, "["+unhex(strings.TrimPrefix(a, "s:"))+"]")
+				}
+				return out
+			}
+			one := func(s string) []string { return []string{s} }
+			wantLines := []struct {
+				name string
+				want []string
+			}{
+				{"sub", alts(cs.Sub[0])}, {"gsub", alts(cs.Gsub[1])}, {`sub "..."i`, alts(ci.Sub[0])}, {`gsub "..."i`, alts(ci.Gsub[1])},
+				{"regextract_or_else", one(oe(cs))}, {`regextract_or_else "..."i`, one(oe(ci))},
+				{"strmatch", one(boolOf(cs.Strmatch))}, {`strmatch "..."i`, one(boolOf(ci.Strmatch))}, {"strmatchx", one(boolOf(cs.Strmatch))},
+				{"=~", one(boolOf(cs.Strmatch))}, {"captures after =~", one(capsOf(cs))},
+				{`=~ "..."i`, one(boolOf(ci.Strmatch))}, {`captures after =~ "..."i`, one(capsOf(ci))},
+				{"!=~", one(notOf(boolOf(cs.Strmatch)))}, {"any+=~", one(boolOf(cs.Strmatch))}, {"if =~", one(yes)},
 			}
 			for li, wl := range wantLines {
 				w.Eval(1)
 				w.Count("calls:dsl-regex:"+wl.name, 1)
-				if wl.want == "" || (strings.Contains(wl.name, "gsub") && strings.Contains(map[bool]string{true: ci.Gsub[1], false: cs.Gsub[1]}[strings.Contains(wl.name, "i")], "|")) {
+				if wl.want[0] == "" {
 					w.Count("unconstrained:dsl-regex:"+wl.name, 1)
 					continue
 				}
 				w.Nontrivial(1)
 				w.Count("asserted:dsl-regex:"+wl.name, 1)
-				if l[li] != wl.want {
-					w.Violation(fmt.Sprintf("dsl-regex[%s]:%02d:%s:%s", wl.name, j.p.nodes+len(s), P, q(s)), fmt.Sprintf("DSL %s with regex %q on %s prints %s; reference: %s", wl.name, P, q(s), q(l[li]), q(wl.want)), map[string]any{"regex": P, "subject": s, "program_line": li + 1})
+				ok := false
+				for _, a := range wl.want {
+					if l[li] == a {
+						ok = true
+					}
+				}
+				if !ok {
+					w.Violation(fmt.Sprintf("dsl-regex[%s]:%02d:%s:%s", wl.name, j.p.nodes+len(s), P, q(s)), fmt.Sprintf("DSL %s with regex %q on %s prints %s; reference: %s", wl.name, P, q(s), q(l[li]), q(strings.Join(wl.want, " or "))), map[string]any{"regex": P, "subject": s, "program_line": li + 1})
 				}
 			}
 		}
